@@ -318,7 +318,7 @@ fn gen_delegation_method<'s>(
             let plus_sync = if contains_async.0 {
                 Some(TokenPair(
                     syn::token::Plus::default(),
-                    syn::Ident::new("Sync", Span::call_site()),
+                    CoreMarker("Sync", Span::call_site()),
                 ))
             } else {
                 None
@@ -555,14 +555,14 @@ impl ImplWhereClause<'_, '_> {
     fn plus_send(&self) -> TokenPair<impl ToTokens, impl ToTokens> {
         TokenPair(
             syn::token::Plus(self.span),
-            syn::Ident::new("Send", self.span),
+            CoreMarker("Send", self.span),
         )
     }
 
     fn plus_sync(&self) -> TokenPair<impl ToTokens, impl ToTokens> {
         TokenPair(
             syn::token::Plus(self.span),
-            syn::Ident::new("Sync", self.span),
+            CoreMarker("Sync", self.span),
         )
     }
 }
